@@ -385,7 +385,7 @@ func build(s scn, base string) (*built, error) {
 			sigPath := mainPath + filesig.Extension
 			extraTmp = append(extraTmp, "."+filepath.Base(sigPath))
 			sigDest = "R/dst/" + updater.GetVersionedPath(id, "1.0.0") + filesig.Extension
-			verif = "require:1:1"
+			verif = "require:1"
 			switch s.Var {
 			case "signed-main":
 				also = append(also, sigPath)
@@ -396,10 +396,10 @@ func build(s scn, base string) (*built, error) {
 				sp.Params["tamper"] = "1"
 				also = append(also, sigPath)
 				err = writeOld(sp.Dest)
-				verif = "require:1:0"
+				verif = "require:1"
 				if s.Var == "signed-tamper-warn" {
 					sp.Params["policy"] = "warn"
-					verif = "warn:1:0"
+					verif = "warn:1"
 					// policy "warn": the delivered bytes are what this download publishes
 					newObs = "f," + contentName(3, s.NewLen)
 					newIsSig = true // (name it literally: content 3)
@@ -409,13 +409,13 @@ func build(s scn, base string) (*built, error) {
 				sp.Params["badsig"], sp.Params["cancel_on_sig"] = "1", "1"
 				also = append(also, sigPath)
 				err = writeOld(sp.Dest)
-				verif = "require:0:0"
+				verif = "require:0"
 			case "signed-nosig-warn":
 				// no signature on the server, policy "warn": downloaded without verification, no signature file
 				sp.Params["nosig"], sp.Params["policy"] = "1", "warn"
 				also = append(also, sigPath)
 				err = writeOld(sp.Dest)
-				verif = "warn:0:0"
+				verif = "warn:0"
 			case "signed-sig":
 				// the destination under observation is the signature file; the resource itself is the other
 				// file this download publishes
@@ -441,7 +441,7 @@ func build(s scn, base string) (*built, error) {
 			err = writeOld(sp.Dest)
 		}
 		if modelled {
-			wires, e := planWires(plan, table[1])
+			wires, e := planWires(plan, table[1], sp.Params["tamper"] == "1")
 			if e != nil {
 				return nil, e
 			}
@@ -483,11 +483,22 @@ func build(s scn, base string) (*built, error) {
 		}
 		// what compress/gzip makes of the file as it is now (the model's input)
 		header, stream = 0, 0
+		var unz bytes.Buffer
 		if zr, e := gzip.NewReader(bytes.NewReader(gz)); e == nil {
 			header = 1
-			if _, e := io.Copy(io.Discard, zr); e == nil {
+			if _, e := io.Copy(&unz, zr); e == nil {
 				stream = 1
 			}
+		}
+		if !bytes.HasPrefix(table[1], unz.Bytes()) {
+			// damaged data: what the decompressor hands out before it notices is not a prefix of the resource. Name
+			// those bytes (content 1, so that chunks and whole files get the same name) and keep the real content
+			// of the resource — the only thing that may ever be published — as content 2.
+			real := table[1]
+			put(1, append([]byte(nil), unz.Bytes()...))
+			put(2, real)
+			newObs = "f," + (&canon{table: table}).content(real)
+			newIsSig = true // named literally
 		}
 		if err = os.WriteFile(gzPath, gz, 0o644); err != nil {
 			return nil, err
